@@ -104,6 +104,19 @@ func BuildProto(w *World, o ProtoOpt) *Proto {
 	return pr
 }
 
+// AnswerHeldDiscovery sends the discovery reply a peer with AutoDD off has held back so far.
+//
+//go:norace
+func (p *Peer) AnswerHeldDiscovery() {
+	for i := len(p.Conn.Out) - 1; i >= 0; i-- {
+		s := p.Conn.Out[i]
+		if s.Gen == p.Conn.Gen && Classifier(s) == "read" && s.D != nil && len(s.D.Payload.Cmd) > 0 && s.D.Payload.Cmd[0].NodeManagementDetailedDiscoveryData != nil {
+			p.SendDiscoveryReply(s.D.Header.MsgCounter, s.D.Header.AddressSource)
+			return
+		}
+	}
+}
+
 // AwaitDiscovery parks the calling task until the node has handled the peer's discovery reply.
 //
 //go:norace
